@@ -76,7 +76,7 @@ def run(chk):
                 continue
             parts = [p.strip() for p in m[2:].split("|")]
             mcons, mchars, mpm = int(parts[0]), [int(x) for x in parts[1].split()], [int(x) for x in parts[2].split()]
-            ok = res.inlen == mcons and res.out[:res.outlen] == mchars and (res.rawmap is None or res.rawmap[3][:min(mcons, len(mpm))] == mpm[:min(mcons, len(mpm))])
+            ok = res.inlen == mcons and res.out[:res.outlen] == mchars and (res.rawmap is None or res.rawmap[3][:mcons] == mpm[:mcons])
             if mcons > len(mpm):
                 chk.tally("trailing_blanks_skipped_after_capacity_failure")
             if not ok:
